@@ -444,8 +444,9 @@ Fixpoint base_ops (reset : bool) (f : full) (ops : list fop) : list op :=
 (* ---------- executable interface: the sub-states are INJECTED per call (projected from the real connection) -----
    input: ops
      6 close_at(opt) end nsp (ack_at(opt) loss_time(opt) aeif disc)*nsp pcav pto pacing(opt) ptod
-         get_timer on that state  ->  0 (None) | 1 value source   (source: 0 close, 10+i ack of space i,
-                                       20+i loss_time of space i, 30 PTO, 40 pacing)
+         get_timer on that state  ->  0 (None) | 1 value source [loss detection time (opt), when not in an END state]
+                                       (source: 0 close, 10+i ack of space i, 20+i loss_time of space i, 30 PTO,
+                                       40 pacing)
      4 now close_at(opt) loss_at(opt) nsp (...)*nsp pcav pto probe  lt(opt) nae ae*nae
          handle_timer on that state -> branch (1 terminated: all spaces discarded | 2 i loss detection on space i |
                                        3 PTO: count + 1, probe | 0 nothing), then pto count, probe flag, nsp, per space
@@ -498,8 +499,9 @@ Definition exec_get (l : list Z) : list Z * list Z :=
               (match fst (fget_timer ptod f) with
                | Ok None => [0]
                | Ok (Some v) =>
-                   [1; v; if z2b endst then 0 else
-                          match ca with Some d => src_code (snd (timer_src ptod d f)) | None => -1 end]
+                   if z2b endst then [1; v; 0] else
+                   [1; v; match ca with Some d => src_code (snd (timer_src ptod d f)) | None => -1 end]
+                   ++ out_opt (loss_time_of f ptod)
                | Err k => [k]
                end, rest)
           | _ => ([], [])
